@@ -128,10 +128,26 @@ pub fn programs(tier: Tier) -> ProgramSet {
             }
         }
     }
+    // SCALE: large enums (thresholds at and around powers of two, 255/256/257), a few disabled and data variants
+    for n in [9usize, 16, 17, 33, 65, 255, 256, 257, 300] {
+        let mut spec = EnumSpec::base(0);
+        for i in 0..n {
+            let mut v = VariantSpec::unit(&format!("V{}", i));
+            if i % 7 == 3 {
+                v.disabled = true;
+            }
+            if i % 10 == 4 {
+                v.kind = Kind::Tuple(vec![FieldTy::U8, FieldTy::Str, FieldTy::Bool, FieldTy::I32, FieldTy::OptU8, FieldTy::Arr2]);
+            }
+            spec.variants.push(v);
+        }
+        let source = render(&spec);
+        out.push(Program { idx: 0, label: format!("SCALE: {} variants (every 7th disabled, every 10th with 6 fields)", n), k: 1, spec, aux: json!(null), source });
+    }
     ProgramSet {
         programs: finish(out),
         excluded: Default::default(),
-        bounds: json!({"N_max": nmax, "disabled_subsets": "all 2^N", "k_max": k,
+        bounds: json!({"N_max": nmax, "scale_N": [9, 16, 17, 33, 65, 255, 256, 257, 300], "disabled_subsets": "all 2^N", "k_max": k,
                         "kinds": ["unit","tuple1","tuple2","named1","named2"],
                         "generics": ["<T: Default>", "<T: Default, U: Default, const Y: usize>", "<T> where T: Default"]}),
     }
@@ -145,7 +161,7 @@ pub fn render(spec: &EnumSpec) -> String {
     o.push_str(
         r#"pub fn run(ctx: &mut vf_core::Ctx) {
     use strum::IntoEnumIterator;
-    let lim = 64usize;
+    let lim = 1024usize;
     let fwd = vf_core::guard(|| EC::iter().take(lim).map(|v| (vidx(&v), format!("{:?}", v))).collect::<Vec<_>>());
     let rev = vf_core::guard(|| EC::iter().rev().take(lim).map(|v| (vidx(&v), format!("{:?}", v))).collect::<Vec<_>>());
     let cnt = vf_core::guard(|| EC::iter().take(lim).count());
